@@ -491,6 +491,22 @@ func (c *SpecCtx) ssaName(name string) (TV, bool) {
 		}
 		return TV{}, false
 	}
+	if name == "$idx2" {
+		// index of the element being processed by the second innermost enclosing range loop
+		seen := 0
+		for d := b; d != nil; d = d.Idom() {
+			for _, in := range d.Instrs {
+				if p, ok := in.(*ssa.Phi); ok && p.Comment == "rangeindex" {
+					seen++
+					if seen == 2 {
+						tv, _ := get(p, false)
+						return TV{Sc{add(tv.V.(Sc).T, intLit(1))}, mathInt}, true
+					}
+				}
+			}
+		}
+		return TV{}, false
+	}
 	if name == "$idx" {
 		// completed iterations of the innermost enclosing range loop (at its header), i.e. the index of
 		// the element being processed when used inside the body
